@@ -371,7 +371,7 @@ func c10Exhaustive(c *run.Ctx, idx uint64) {
 func c10Random(c *run.Ctx, idx uint64) {
 	r := c.Rng(idx)
 	n := r.Range(20, 200)
-	long := idx%64 == 63
+	long := r.Chance(1, 64)
 	if long {
 		n = r.Range(3000, 6000) // streams of tens of kilobytes
 	}
